@@ -62,7 +62,7 @@ func (s step) String() string {
 
 var kinds = []string{"interested", "interested", "notinterested", "request", "request", "request", "request", "request-odd", "request-dup",
 	"flood", "cancel", "cancel-unknown", "t.unchoke", "t.unchoke", "t.unchoke", "t.choke", "evict", "verify", "pause", "unpause", "close", "sleep", "sleep", "sleep",
-	"t.interested", "congested-choke"}
+	"t.interested", "congested-choke", "congested-unchoke"}
 
 type store struct {
 	ps       *piece.Pieces
@@ -517,6 +517,37 @@ func run(c caseSpec) (fail string, labels map[string]bool, hist []string) {
 			m.a.R.Send(ref.Msg{Kind: ref.KNotInt})
 			labels["congested-choke"] = true
 			labels["congestion"] = true
+		case "congested-unchoke":
+			// the same congestion, and then the torrent decides to unchoke this
+			// peer: the Unchoke cannot be written, so the peer is not unchoked
+			if m.unchoked || !m.a.Alive() {
+				continue
+			}
+			if !m.paused {
+				m.a.R.Pause(true)
+				m.paused = true
+			}
+			{
+				full := make([]byte, (st.n+7)/8)
+				for k := 0; k < st.n; k++ {
+					full[k/8] |= 0x80 >> (k % 8)
+				}
+				empty := make([]byte, (st.n+7)/8)
+				var raw []byte
+				for k := 0; k < 30+s.I%70; k++ {
+					bf := full
+					if k%2 == 1 {
+						bf = empty
+					}
+					raw = append(raw, ref.Encode(ref.Msg{Kind: ref.KBitfield, Data: bf})...)
+				}
+				m.a.R.SendRaw(raw)
+				sim.Settle()
+			}
+			m.a.Cmd(peer.PeerUnchoke{Unchoke: true})
+			labels["congested-unchoke"] = true
+			labels["congestion"] = true
+			labels["unchoke-cmd"] = true
 		case "t.unchoke":
 			m.a.Cmd(peer.PeerUnchoke{Unchoke: true})
 			labels["unchoke-cmd"] = true
